@@ -171,12 +171,12 @@ theorem padToAlignment_spec (a len : Nat) (h : ValidAlignment a) :
 example : ValidAlignment DEFAULT_ALIGNMENT := Or.inr (Or.inr (Or.inr rfl))
 
 /-- **Body layout** (`encode_sink_buffer` + `write_record_batch` vs `read_buffer`): for every
-list of buffers, slicing the body at the recorded `(offset, length)` entries returns exactly
-the buffers; every buffer starts on an alignment boundary; the body length is a multiple of
+list of buffers, every recorded `(offset, length)` entry passes the reader's bounds check and
+slicing the body there returns exactly the buffers; every buffer starts on an alignment boundary; the body length is a multiple of
 the alignment (so `write_encoded_data`'s alignment check passes and `tail_pad` is 0). -/
 theorem bodyLayout_roundtrip (a : Nat) (ha : ValidAlignment a) (bufs : List (List Nat)) :
     let r := encodeBody a bufs
-    r.1.map (readBuffer r.2) = bufs ∧ (∀ e ∈ r.1, e.1 % a = 0) ∧ r.2.length % a = 0 ∧
+    r.1.map (readBuffer r.2) = bufs.map some ∧ (∀ e ∈ r.1, e.1 % a = 0) ∧ r.2.length % a = 0 ∧
       r.1.map (·.2) = bufs.map (·.length) := by
   have h := encodeBody_ok a ha bufs
   have h' := encodeSinkBuffers_ok a ha bufs 0 [] [] rfl (by simp)
@@ -383,6 +383,11 @@ theorem shapes_tied :
       SHAPE_INSERT_DELTA_lost ||
       SHAPE_ENCODE_DICT_UPDATE_lost ||
       SHAPE_READ_BUFFER_lost ||
+      SHAPE_READ_BUFFER_SLICE_lost ||
+      SHAPE_READ_UNION_TYPE_IDS_lost ||
+      SHAPE_READ_UNION_OFFSETS_lost ||
+      SHAPE_READ_UNION_ALIGN_lost ||
+      SHAPE_READ_UNION_COPY_lost ||
       SHAPE_UPDATE_DICT_lost ||
       SHAPE_UPDATE_DICT_CONCAT_lost ||
       SHAPE_READ_META_PREFIX_lost ||
